@@ -52,6 +52,11 @@ func moduleCone(p *Prog, roots []*ssa.Function) []*ssa.Function {
 				if mc, ok := in.(*ssa.MakeClosure); ok {
 					visit(mc.Fn.(*ssa.Function))
 				}
+				if ci, ok := in.(ssa.CallInstruction); ok && ci.Common().IsInvoke() {
+					for _, m := range p.moduleImpls(ci.Common()) {
+						visit(m)
+					}
+				}
 			}
 		}
 	}
